@@ -24,7 +24,7 @@ RULE = ("exhaustive: all queues (sequences of destination indices, 3 destination
         "first attempt ('first', so that a later packet to it would get through if the stack tried), "
         "GramStack.serviceTxPkts ('all'), UdpStack.serviceTxPktsOnce with a pass = as many one-packet calls as "
         "packets are pending at its start ('once-pass'), and with one fault set per single call ('once-call'; "
-        "oracle: order, exactly-once, a call in which nothing fails sends a packet). N = 5/4/4/4/4 quick, "
+        "oracle: order, exactly-once, a call in which nothing fails sends a packet). N = 4/4/4/4/4 quick, "
         "6/6/5/6/6 thorough. errno rotates over the nine transient errnos as a "
         "function of the case. non-trivial = some pass starts with packets queued for both a failing and a "
         "healthy destination; distinct = (variant, queue, fault sets)")
@@ -39,7 +39,7 @@ META = {
     "text": "The complete space of queues x per-pass fault sets named by the property is enumerated (thorough tier: "
             "all queues up to six packets, up to three faulty passes), for both fault shapes and both service entry "
             "points, against an exact per-pass oracle.",
-    "note": "Trusts the handler double and the harness bookkeeping; quick tier enumerates queues up to 5 (4) packets only. "
+    "note": "Trusts the handler double and the harness bookkeeping; quick tier enumerates queues up to 4 packets only. "
             "Faults are injected at handler.send; the real UDP socket is not involved.",
     "technique": "exhaustive fault enumeration with a handler double and an exact reference schedule",
     "design_ref": "DESIGN.md section 3, C35",
@@ -49,7 +49,7 @@ ERRNOS = [errno.ECONNREFUSED, errno.ECONNRESET, errno.ENETRESET, errno.ENETUNREA
           errno.ENETDOWN, errno.EHOSTDOWN, errno.ETIMEDOUT, errno.ETIME]
 DESTS = [("127.0.0.1", 7001), ("127.0.0.1", 7002), ("127.0.0.1", 7003)]
 VARIANTS = ["udp-pkts-all", "udp-pkts-first", "gram-pkts-all", "udp-once-pass", "udp-once-call"]
-NMAX = {"quick": {"udp-pkts-all": 5, "udp-pkts-first": 4, "gram-pkts-all": 4, "udp-once-pass": 4, "udp-once-call": 4},
+NMAX = {"quick": {"udp-pkts-all": 4, "udp-pkts-first": 4, "gram-pkts-all": 4, "udp-once-pass": 4, "udp-once-call": 4},
         "thorough": {"udp-pkts-all": 6, "udp-pkts-first": 6, "gram-pkts-all": 5, "udp-once-pass": 6, "udp-once-call": 6}}
 
 
